@@ -112,14 +112,20 @@ class Mon:
 # ================================================================================================
 # (1) plane geometry
 # ================================================================================================
+def _brief(case):
+    if 'p1' in case:
+        return {'delta_east': case['p2'][0] - case['p1'][0], 'delta_north': case['p2'][1] - case['p1'][1]}
+    return {'delta_east': case.get('x'), 'delta_north': case.get('y')}
+
+
 def judge_range(ctx, name, case, b):
     """bearing in [0, 360); exactly 360.0 is its own mechanism (a rounding event, not a branch error)."""
     ctx.count('bearing_range')
     if b == 360.0:
-        ctx.violation(name + ':bearing-is-360', case, {'bearing': b, 'expected': 'in [0, 360)'})
+        ctx.violation(name + ':bearing-is-360', case, {'bearing': b, 'expected': 'in [0, 360)', 'input': _brief(case)})
         return False
     if not (0.0 <= b < 360.0):
-        ctx.violation(name + ':bearing-out-of-range', case, {'bearing': b, 'expected': 'in [0, 360)'})
+        ctx.violation(name + ':bearing-out-of-range', case, {'bearing': b, 'expected': 'in [0, 360)', 'input': _brief(case)})
         return False
     return True
 
